@@ -42,6 +42,44 @@ _PATH_BODY2HANDLERS = [astfield('body', 0), astfield('body', 0), astfield('handl
 _PATH_BODYCASES     = [astfield('body', 0), astfield('cases', 0)]
 
 
+def _is_reparse_raw_stmtlike_ok(
+    self: fst.FST, copy: fst.FST, frag_end_ln: int, frag_end_col: int, in_blkhead: bool
+) -> bool:
+    """Whether the statementlike `copy`, parsed on its own from the fragment of source which was `self` (or its block
+    header if `in_blkhead`, start including decorators, end not including trailing line comment) with the new source put
+    and which now ends at `frag_end_ln`, `frag_end_col`, is what a parse of the whole source would give in place of
+    `self` with nothing else in the tree changing. This is the case if the new node spans exactly the fragment and does
+    not depend on or change the meaning of anything around it. When in doubt return `False`, the whole source is
+    reparsed then which is always correct, just slower."""
+
+    copya = copy.a
+    copy_cls = copya.__class__
+    self_cls = self.a.__class__
+    ln, col, _, _ = self.bloc
+    copy_ln, copy_col, _, _ = copy.bloc
+    _, _, copy_end_ln, copy_end_col = copy.loc
+
+    if copy_ln != ln or copy_col != col:  # does not start where `self` started, something put at start changed the indentation, or made `self` a comment or part of previous line, or `self` is gone and this is something else
+        return False
+
+    if (copy_cls is ExceptHandler
+        and (parent := self.parent)
+        and {parent.a.__class__, copy.parent.a.__class__} == {Try, TryStar}
+    ):  # `except` <-> `except*`, they can not be mixed so let the whole source parse decide
+        return False
+
+    if in_blkhead:  # only the block header was reparsed (with a synthetic body) and gets the old body, needs to be same kind of block (`if` with an `elif` can not become a `while`) and header must end at end of fragment for the old body to follow it just like it did
+        return copy_cls is self_cls and copy._loc_block_header_end()[2:] == (frag_end_ln, frag_end_col)
+
+    if copy_end_ln != frag_end_ln or copy_end_col != frag_end_col:  # there is something else in the fragment, more statements (split), trailing comment or line continuation which may have taken in what follows the fragment, whitespace which enclosing blocks include in their location if this is their last child
+        return False
+
+    if copy_cls in ASTS_LEAF_BLOCK and self_cls not in ASTS_LEAF_BLOCK:  # simple statement changed to block, takes over any statements following on the same line after a semicolon, and the semicolon itself into its location
+        return False
+
+    return True
+
+
 def _reparse_raw_base(
     self: fst.FST,
     new_lines: list[str],
@@ -55,11 +93,28 @@ def _reparse_raw_base(
     mode: Mode | None = None,
     first_lineno: int = 0,  # should only be non-zero if we wish to apply column delta to it
     first_line_col_delta: int = 0,
-) -> fst.FST:
+    frag_end: tuple[int, int] | None = None,
+) -> fst.FST | None:
     """Actually do the reparse. If `mode` is `None` then will just try a normal `'exec'` parse and fail if that fails.
     Otherwise it will try this mode first, then all other parse modes as it is assumed to be a non-top-level
     statementlike thing being reparsed. The other parse modes are not tried if the root is a `mod` (`Module`,
-    `Expression` or `Interactive`) as that can only hold source of its own kind and must not change to something else."""
+    `Expression` or `Interactive`) as that can only hold source of its own kind and must not change to something else.
+
+    If there is a `path` then `self` is a statementlike which is being reparsed on its own (or just its block header if
+    not `set_ast`) from a fragment of the source in a synthetic wrapper in `copy_lines`. `frag_end` is the end of this
+    fragment (end of `self` or its block header) in `copy_lines`, it starts at the start of `self`. In this case if the
+    fragment does not parse or does not parse to something which can be put in place of `self` without looking at the
+    rest of the source, see `_is_reparse_raw_stmtlike_ok()`, then nothing is changed and `None` is returned, the caller
+    should then reparse the whole source which is the only thing that can say whether the change is valid or not.
+    """
+
+    if path:
+        if (end_ln, end_col) > frag_end:  # change to trailing comment, parents which end at `self` would not be offset correctly
+            return None
+
+        frag_end_ln, frag_end_col = frag_end
+        frag_tail_lns = len(copy_lines) - frag_end_ln  # the put is inside the fragment so location of its end from end of source doesn't change
+        frag_tail_cols = len(copy_lines[frag_end_ln]) - frag_end_col
 
     copy_root = fst.FST(Pass(), copy_lines, None, lcopy=False)  # we don't need the ASTs here, just the lines
 
@@ -71,7 +126,10 @@ def _reparse_raw_base(
         copy_root = fst.FST.fromsrc(copy_root.src, mode or 'exec', **root._parse_params)
 
     except (SyntaxError, NodeError):
-        if mode is None or path or isinstance(root.a, mod):  # if there is a path then we expect the top level node to parse to the same thing successfully, if it does not then it is a genuine error, likewise a `mod` root can only ever be source of its own kind
+        if path:  # statementlike does not parse on its own but the whole source still may, e.g. if the change splits it, comments it out or moves it to another block
+            return None
+
+        if mode is None or isinstance(root.a, mod):  # a `mod` root can only ever be source of its own kind
             raise
 
         try:
@@ -85,9 +143,13 @@ def _reparse_raw_base(
 
     else:
         copy = copy_root.child_from_path(path)
+        frag_end_ln = len(lines := copy_root._lines) - frag_tail_lns
+        frag_end_col = len(lines[frag_end_ln]) - frag_tail_cols
 
-        if not copy:
-            raise RuntimeError('could not find node after reparse')  # pragma: no cover
+        if not copy or not _is_reparse_raw_stmtlike_ok(self, copy, frag_end_ln, frag_end_col, not set_ast):
+            copy_root._unmake_fst_tree()
+
+            return None
 
         root._put_src(new_lines, ln, col, end_ln, end_col, True, True, self if set_ast else None)  # we do this again in our own tree to offset our nodes which aren't being moved over from the modified copy, can exclude self if setting ast because it overrides self locations
 
@@ -96,6 +158,8 @@ def _reparse_raw_base(
 
     if first_lineno and first_line_col_delta:  # apply column delta to first line because probably we changed multi-byte characters to single-byte spaces
         for a in walk(copy.a):
+            a.f._cache.clear()  # locations may have been cached by the check of the reparsed node above
+
             if (end_col_offset := getattr(a, 'end_col_offset', None)) is not None:
                 if a.end_lineno == first_lineno:
                     a.end_col_offset = end_col_offset + first_line_col_delta
@@ -112,7 +176,13 @@ def _reparse_raw_base(
 
 def _reparse_raw_stmtlike(self: fst.FST, new_lines: list[str], ln: int, col: int, end_ln: int, end_col: int) -> bool:
     """Reparse only statementlike or block header part of statementlike containing changes. We reparse minimum statement
-    level due to things like f/t-string debug strings."""
+    level due to things like f/t-string debug strings.
+
+    **Returns:**
+    - `bool`: `True` if reparsed. `False` if there is no statementlike above or the change does not leave exactly one
+        statementlike which can be parsed on its own in its place, in which case nothing was changed and the caller
+        should reparse the whole source.
+    """
 
     if not (stmtlike := self.parent_stmtlike(True, False)):
         return False
@@ -231,8 +301,9 @@ def _reparse_raw_stmtlike(self: fst.FST, new_lines: list[str], ln: int, col: int
     if not in_blkhead:  # non-block statement or modifications not limited to block header part
         copy_lines[pend_ln] = bistr(copy_lines[pend_ln][:pend_col])
 
-        _reparse_raw_base(stmtlike, new_lines, ln, col, end_ln, end_col, copy_lines, path, True, None,
-                          first_lineno, first_line_col_delta)
+        if not _reparse_raw_base(stmtlike, new_lines, ln, col, end_ln, end_col, copy_lines, path, True, None,
+                                 first_lineno, first_line_col_delta, stmtlike.loc[2:]):
+            return False
 
         if is_elif:  # nuking a whole elif will parse but can do bad things to end positions
             stmtlike._set_end_pos((a := stmtlike.a).end_lineno, a.end_col_offset)  # setting own position to what it currently is but will also propagate up the tree
@@ -254,8 +325,10 @@ def _reparse_raw_stmtlike(self: fst.FST, new_lines: list[str], ln: int, col: int
         elif stmtlike_cls is TryStar:  # ditto
             copy_lines.append(bistr(indent + 'except* Exception: pass'))
 
-    copy = _reparse_raw_base(stmtlike, new_lines, ln, col, end_ln, end_col, copy_lines, path, False, None,
-                             first_lineno, first_line_col_delta)
+    if not (copy := _reparse_raw_base(stmtlike, new_lines, ln, col, end_ln, end_col, copy_lines, path, False, None,
+                                      first_lineno, first_line_col_delta, (pend_ln, pend_col))):
+        return False
+
     copya = copy.a
 
     if not is_match_case:  # match_case doesn't have AST location
@@ -287,7 +360,7 @@ def _reparse_raw(self: fst.FST, code: Code | None, ln: int, col: int, end_ln: in
 
     new_lines = _code_as_lines(code)
 
-    if not _reparse_raw_stmtlike(self, new_lines, ln, col, end_ln, end_col):  # attempt to reparse only statement (or even only block header), if fails then no statement found above
+    if not _reparse_raw_stmtlike(self, new_lines, ln, col, end_ln, end_col):  # attempt to reparse only statement (or even only block header), if not done then no statement found above or change is not local to the statement
         root = self.root
 
         if ((mode := root.a.__class__) is not Slice
